@@ -556,7 +556,7 @@ class Pair:
             return []
         return [6, 51, 52, 53, 60, 64, 65] if s.server_mode else [5, 50, 61, 63, 66]
 
-    def barrier(self, limit=30):
+    def barrier(self, limit=30, soft=False):
         """Round trip through the subject's run loop (GLOBAL_REQUEST with want_reply).  Returns True when the
         answer arrived, False when the subject's loop ended instead."""
         self.pong.clear()
@@ -570,6 +570,10 @@ class Pair:
                 # the loop ended; a reply already in flight would have been delivered before the EOF
                 return self.pong.is_set()
             if time.time() - t0 > limit:
+                if soft:
+                    # both loops run, but a request that must be answered is not: an observation, not a harness fault
+                    self.barrier_timed_out = True
+                    return False
                 raise InfraError("barrier timed out with both transport threads alive")
         return True
 
